@@ -912,3 +912,34 @@ fn test_exp_modn() {
         exp_modn_large(&zn, &zn.from_int(two), &U1024::cast_from(p480 - Uint::ONE))
     );
 }
+
+// ---------------------------------------------------------------------------
+// Verification hooks (add-only, compiled only with `--cfg yamaquasi_verif`).
+
+#[cfg(yamaquasi_verif)]
+#[doc(hidden)]
+pub fn verif_exp_modn(zn: &ZmodN, g: &MInt, exp: u64) -> MInt {
+    exp_modn(zn, g, exp)
+}
+
+#[cfg(yamaquasi_verif)]
+#[doc(hidden)]
+pub fn verif_exp_modn_large(zn: &ZmodN, g: &MInt, exp: &U1024) -> MInt {
+    exp_modn_large(zn, g, exp)
+}
+
+#[cfg(yamaquasi_verif)]
+#[doc(hidden)]
+pub fn verif_stage2_table() -> &'static [(f64, u64, u64)] {
+    STAGE2_PARAMS
+}
+
+#[cfg(yamaquasi_verif)]
+#[doc(hidden)]
+pub fn verif_stage2_params(b2: f64) -> (f64, u64, u64) {
+    stage2_params(b2)
+}
+
+#[cfg(yamaquasi_verif)]
+#[doc(hidden)]
+pub const VERIF_MULTIEVAL_THRESHOLD: f64 = MULTIEVAL_THRESHOLD;
